@@ -8,6 +8,12 @@ from fractions import Fraction
 DEFAULTS = {
     "half_cell": Fraction(1, 2),
     "divisibility_factor": Fraction(1, 1000),
+    # stencil coefficient tuples of operators._1d_diff (order 2)
+    "d2_interior": [1, -2, 1],
+    "d2_first4": [2, -5, 4, -1],
+    "d2_last4": [2, -5, 4, -1],
+    "d2_first3": [1, -2, 1],
+    "d2_last3": [1, -2, 1],
 }
 
 
@@ -29,8 +35,67 @@ def _func(tree, cls, name):
     return None
 
 
+def _lin(node, name):
+    """coefficients {index: coeff} of a linear combination of name[index] terms"""
+    if isinstance(node, ast.Subscript) and getattr(node.value, "id", None) == name:
+        i = _num(node.slice)
+        return None if i is None else {int(i): 1}
+    if isinstance(node, ast.BinOp) and isinstance(node.op, ast.Mult):
+        c, t = _num(node.left), _lin(node.right, name)
+        if c is None or t is None:
+            c, t = _num(node.right), _lin(node.left, name)
+        if c is None or t is None or c.denominator != 1:
+            return None
+        return {i: int(c) * v for i, v in t.items()}
+    if isinstance(node, ast.BinOp) and isinstance(node.op, (ast.Add, ast.Sub)):
+        a, b = _lin(node.left, name), _lin(node.right, name)
+        if a is None or b is None:
+            return None
+        sgn = 1 if isinstance(node.op, ast.Add) else -1
+        out = dict(a)
+        for i, v in b.items():
+            out[i] = out.get(i, 0) + sgn * v
+        return out
+    if isinstance(node, ast.UnaryOp) and isinstance(node.op, ast.USub):
+        t = _lin(node.operand, name)
+        return None if t is None else {i: -v for i, v in t.items()}
+    return None
+
+
+def _stencils(repo, found):
+    ops = ast.parse(open(os.path.join(repo, "discretisedfield", "operators.py")).read())
+    fn = next((n for n in ast.walk(ops) if isinstance(n, ast.FunctionDef) and n.name == "_1d_diff"), None)
+    if fn is None:
+        return
+    for n in ast.walk(fn):
+        if isinstance(n, ast.Call) and getattr(n.func, "attr", "") == "convolve" and len(n.args) >= 2 \
+                and isinstance(n.args[1], ast.List):
+            ker = [_num(e) for e in n.args[1].elts]
+            if all(k is not None and k.denominator == 1 for k in ker):
+                found["d2_interior"] = [int(k) for k in reversed(ker)]   # convolution flips the kernel
+    for n in ast.walk(fn):
+        if isinstance(n, ast.If) and isinstance(n.test, ast.Compare) and isinstance(n.test.ops[0], ast.GtE):
+            for branch, suffix in ((n.body, "4"), (n.orelse, "3")):
+                for st in branch:
+                    if isinstance(st, ast.Assign) and isinstance(st.targets[0], ast.Subscript) \
+                            and getattr(st.targets[0].value, "id", "") == "derivative_array":
+                        pos = _num(st.targets[0].slice)
+                        co = _lin(st.value, "array")
+                        if pos is None or co is None:
+                            continue
+                        k = int(suffix)
+                        if pos == 0 and set(co) <= set(range(k)):
+                            found["d2_first" + suffix] = [co.get(i, 0) for i in range(k)]
+                        if pos == -1 and set(co) <= set(range(-k, 0)):
+                            found["d2_last" + suffix] = [co.get(-1 - i, 0) for i in range(k)]
+
+
 def extract(repo):
     found = {}
+    try:
+        _stencils(repo, found)
+    except Exception:  # noqa: BLE001 - fail-soft per group
+        pass
     mesh = ast.parse(open(os.path.join(repo, "discretisedfield", "mesh.py")).read())
     f = _func(mesh, "Mesh", "index2point")
     if f is not None:
@@ -54,10 +119,14 @@ def extract(repo):
 
 def render(vals):
     lines = ["(* GENERATED by harness/constants.py from /repo on every run (committed copy = fallback). *)",
-             "From Coq Require Import QArith."]
+             "From Coq Require Import QArith List.", "Import ListNotations."]
     for k in sorted(vals):
         v = vals[k]
-        lines.append(f"Definition {k} : Q := ({v.numerator} # {v.denominator}).")
+        if isinstance(v, list):
+            body = "; ".join(str(x) if x >= 0 else f"({x})" for x in v)
+            lines.append(f"Definition {k} : list Z := [{body}]%Z.")
+        else:
+            lines.append(f"Definition {k} : Q := ({v.numerator} # {v.denominator}).")
     return "\n".join(lines) + "\n"
 
 
